@@ -5,3 +5,5 @@ import IppModel.Props.C03
 #print axioms Ipp.Props.C03.registered_tags
 #print axioms Ipp.Props.C03.single_end_tag
 #print axioms Ipp.Props.C03.additional_values_shape
+#print axioms Ipp.Props.C03.independent_decoder_correct
+#print axioms Ipp.Props.C03.independent_decoder_reads_encoder
